@@ -7,6 +7,9 @@ K : Numerics.<k-point formula> and make_extrap_func (array- and Spectrum-valued,
 L3: the property statement evaluated on the real code, independent of the model: value at x=0 of the planted polynomial
     (Neville in exact fractions as the reference), all orderings, log variant, planted fallback entries, labels/mask,
     pts positional vs keyword, counts outside 1..6, extrap_x recorded by from_phi, real demographic models.
+    Round 7: labels of Spectrum-valued models entry by entry (l3_labels: masks none / corners / one corner / arbitrary / per grid,
+    folded, pop_ids, memoising models, every call twice, finest grid first with a planted fallback entry); T: the mask rule of the
+    Spectrum binary-arithmetic template (specArithMask); K: c07.mask (generated formulas run on mask bits) vs the real mask.
     Which x values are used (round 4): an explicit extrap_x_l must decide also when the Spectrum-valued results carry
     another extrap_x or None; without it the results' extrap_x are used; plain arrays / Spectra without extrap_x and no
     explicit list must be refused.  T: the statements assigning x_l are translated (xSelect); K: the x list the real
@@ -823,6 +826,246 @@ def l3_glue(chk, ctx, rng):
     if g.__name__ != 'model' or g.__doc__ != model.__doc__:
         chk.fail('make_extrap_func:name_doc', 'wrapper does not keep __name__/__doc__', dict(glue='name_doc'))
 
+# ----------------------------------------------------------------------------------------------- L3: labels of Spectrum-valued models
+MASK_KINDS = ['none', 'corners', 'one_corner', 'interior', 'per_grid']
+
+def gen_label_case(rng, dadi, k, mode, valued, mask_kind, **force):
+    """A model whose k per-grid results are prepared once (so the SAME object can be handed out on every call): Spectrum-valued
+    with a chosen mask (none at all / both corners / one corner / arbitrary entries / another mask on every grid), folded or
+    not, pop_ids set, arbitrary numbers (0, negative) under the mask; or plain arrays.  Every unmasked entry depends on x as a
+    positive polynomial (exp of a polynomial in log mode) of degree < k; one unmasked entry may be planted beyond fail_mag."""
+    kind = force.get('xkind') or ['grid', 'grid_shuffled', 'geometric'][int(rng.integers(3))]
+    while True:
+        pts, xs = gen_xs(rng, dadi, k, kind)
+        if k < 2 or lebesgue0(xs)[0] <= 200: break
+    two = bool(rng.random() < 0.5)
+    shape = [int(rng.integers(3, 6)), int(rng.integers(3, 6))] if two else [int(rng.integers(4, 9))]
+    n = int(np.prod(shape))
+    folded = bool(valued == 'spectrum' and force.get('folded', rng.random() < 0.35))
+    deg = int(rng.integers(0, k))
+    xm = max(abs(x) for x in xs)
+    C = [np.vectorize(coarse)(rng.uniform(0.5, 1.5, n))]
+    for j in range(1, deg + 1):
+        C.append(np.vectorize(coarse)(rng.uniform(-1, 1, n) * (0.6 / k) / xm ** j))     # |sum of the higher terms| <= 0.6 * min C0: positive
+    fm = force.get('fail_mag', [None, None, 3, 6][int(rng.integers(4))])
+    masks = []
+    if valued == 'spectrum':
+        corners = [0, n - 1]
+        base = np.zeros(n, dtype=bool)
+        if mask_kind == 'corners': base[corners] = True
+        elif mask_kind == 'one_corner': base[corners[int(rng.integers(2))]] = True
+        elif mask_kind == 'interior':
+            base[rng.choice(n, size=int(rng.integers(1, max(2, n // 3))), replace=False)] = True
+        for i in range(k):
+            m = base.copy()
+            if mask_kind == 'per_grid':
+                m[rng.choice(n, size=int(rng.integers(0, max(2, n // 3))), replace=False)] = True
+                if i == 0 and rng.random() < 0.5: m[0] = True
+            masks.append([int(v) for v in m])
+    order_kinds = ['finest_first', 'coarsest_first', 'random'] if k >= 2 else ['given']
+    return dict(labels_case=True, k=k, pts_l=pts, xs=xs, xkind=kind, mode=mode, valued=valued, mask_kind=mask_kind, shape=shape, folded=folded,
+                deg=deg, C=[c.tolist() for c in C], fail_mag=fm, masks=masks, pop_ids=(['A', 'B'][:len(shape)] if valued == 'spectrum' else None),
+                xsrc=force.get('xsrc') or ('results' if (valued == 'spectrum' and rng.random() < 0.6) else 'explicit'),
+                pts_kw=bool(rng.random() < 0.4), memo=bool(force.get('memo', rng.random() < 0.6)),
+                plant=(bool(k >= 2 and force.get('plant', rng.random() < 0.6)), float(rng.choice([1.0, 2.0, 4.0])), int(rng.choice([1, -1])), float(rng.random())),
+                junk=[coarse(v) for v in rng.uniform(-2, 2, 4)] + [0.0], np_x=bool(rng.random() < 0.5),
+                perm=[int(i) for i in rng.permutation(k)])
+
+def label_objects(dadi, case):
+    """(the k result objects, masks actually carried (flat, k x n), finest-grid index, Lebesgue constant, planted entry or None,
+    value table Yin the formulas see (k x n), expected limit per entry)"""
+    k, xs = case['k'], case['xs']; shape = tuple(case['shape']); n = int(np.prod(shape))
+    C = [np.array(c, dtype=float) for c in case['C']]
+    if case['folded']:                       # folding is linear: fold every coefficient array, the dependence stays polynomial
+        C = [np.asarray(np.ma.getdata(dadi.Spectrum(c.reshape(shape), mask_corners=False).fold())).ravel() for c in C]
+        fmask = np.ma.getmaskarray(dadi.Spectrum(np.ones(shape), mask_corners=False).fold()).ravel()
+    else:
+        fmask = np.zeros(n, dtype=bool)
+    P = np.array([[sum(float(C[p][e]) * x ** p for p in range(len(C))) for e in range(n)] for x in xs]).reshape(k, n)
+    masks = [np.array(m, dtype=bool) | fmask for m in case['masks']] if case['valued'] == 'spectrum' else [np.zeros(n, dtype=bool)] * k
+    anym = np.any(masks, axis=0) if k else np.zeros(n, dtype=bool)
+    ibest = int(np.argmin(xs)); amp = 1.0; planted = None
+    fmv = 10 if case['fail_mag'] is None else case['fail_mag']
+    if k >= 2:
+        amp, Ls = lebesgue0(xs)
+        free = np.nonzero(~anym)[0]
+        if case['plant'][0] and len(free):
+            # prefer an unmasked corner: that is where a result with another mask than its inputs shows
+            cand = [e for e in (0, n - 1) if not anym[e]]
+            e = int(cand[0]) if (cand and case['plant'][3] < 0.6) else int(free[int(case['plant'][3] * len(free)) % len(free)])
+            d = fmv + case['plant'][1]; sgn = case['plant'][2]
+            j = max(range(k), key=lambda i: (abs(Ls[i]) if i != ibest else -1))
+            if case['mode'] == 'linear':
+                if sgn < 0 and amp * 1e-13 > 0.02 * 10.0 ** (-d): sgn = 1
+                best = Fraction(float(P[ibest, e])); target = best * Fraction(10) ** int(round(d * sgn))
+            else:
+                best = Fraction(float(P[ibest, e])); target = best + Fraction(d * sgn * math.log(10.0))
+            rest = sum(Ls[i] * Fraction(float(P[i, e])) for i in range(k) if i != j)
+            v = float((target - rest) / Ls[j])
+            if case['mode'] == 'log' or v > 0:        # linear mode: all per-grid values stay positive (numpy.ma masks log10 outside its domain)
+                P[j, e] = v; planted = e
+    Y = np.exp(P) if case['mode'] == 'log' else P.copy()
+    limit = np.exp(C[0]) if case['mode'] == 'log' else C[0].copy()
+    objs = []
+    for i in range(k):
+        a = Y[i].copy()
+        if case['valued'] == 'spectrum':
+            hid = np.nonzero(masks[i])[0]
+            a[hid] = [case['junk'][(int(e) + i) % len(case['junk'])] for e in hid]
+            a[fmask] = 0.0
+            rx = case['xs'][i] if case['xsrc'] == 'results' else None
+            if rx is not None and case.get('np_x') and (i + k) % 2 == 0: rx = np.float64(rx)      # from_phi records a numpy scalar
+            o = dadi.Spectrum(a.reshape(shape), mask=masks[i].reshape(shape), mask_corners=False, data_folded=case['folded'],
+                              check_folding=False, pop_ids=case['pop_ids'], extrap_x=rx)
+            masks[i] = np.ma.getmaskarray(o).ravel().copy()
+        else:
+            o = a.reshape(shape)
+        objs.append(o)
+    return objs, masks, ibest, amp, planted, (np.log(Y) if case['mode'] == 'log' else Y), Y, limit
+
+def _snapshot(o):
+    if isinstance(o, np.ma.MaskedArray):
+        return (np.array(np.ma.getdata(o), dtype=float, copy=True), np.ma.getmaskarray(o).copy(), getattr(o, 'folded', None),
+                None if getattr(o, 'pop_ids', None) is None else list(o.pop_ids), getattr(o, 'extrap_x', None))
+    return (np.array(o, dtype=float, copy=True), None, None, None, None)
+
+def _same_snapshot(a, b):
+    return (np.array_equal(a[0], b[0], equal_nan=True) and (a[1] is None) == (b[1] is None) and (a[1] is None or np.array_equal(a[1], b[1]))
+            and a[2] == b[2] and a[3] == b[3] and a[4] == b[4])
+
+def check_label_case(chk, ctx, case):
+    """L3, from "array- and Spectrum-valued models ... labels are preserved ... independent of the order of the grid list":
+    the extrapolated Spectrum is a Spectrum with the folded flag and pop_ids of the model's results, masked exactly where one
+    of them is masked, and every other entry (corners included when the model leaves them unmasked) holds the exact limit /
+    the finest-grid value for the planted entry -- on a first and on a repeated call, for the finest grid listed first, the
+    coarsest first and a random order; the objects the model handed out are not modified (a memoising model hands out the
+    same objects again)."""
+    dadi = ctx['dadi']; N = dadi.Numerics
+    k = case['k']; name = wname(case); key0 = '%s:k=%d' % (name, k)
+    shape = tuple(case['shape']); n = int(np.prod(shape))
+    import logging
+    lg = [logging.getLogger(nm) for nm in ('Spectrum_mod', 'Numerics')]; old = [l.level for l in lg]
+    for l in lg: l.setLevel(logging.ERROR)
+    try:
+        objs, masks, ibest, amp, planted, Yin, Y, limit = label_objects(dadi, case)
+    finally:
+        for l, lv in zip(lg, old): l.setLevel(lv)
+    chk.l3(('labels', k, case['mode'], case['valued'], case['mask_kind'], case['folded'], case['memo'], case['xsrc'], planted is not None, len(shape)))
+    chk.stat('labels:mask=%s' % (case['mask_kind'] if case['valued'] == 'spectrum' else 'array')); chk.stat('labels:k=%d' % k)
+    chk.stat('labels:' + ('memoising' if case['memo'] else 'fresh_objects')); chk.stat('labels:folded' if case['folded'] else 'labels:unfolded')
+    if planted is not None: chk.stat('labels:planted_fallback' + (':corner' if planted in (0, n - 1) else ''))
+    exp_mask = np.any(masks, axis=0)
+    chk.stat('labels:unmasked_corners', int(case['valued'] == 'spectrum') * int((not exp_mask[0]) + (not exp_mask[n - 1])))
+    expect = limit.copy()
+    if planted is not None: expect[planted] = Y[ibest, planted]
+    ymax = float(np.max(np.abs(Yin[:, ~exp_mask]))) if np.any(~exp_mask) else 0.0
+    snaps = [_snapshot(o) for o in objs]
+    idx = {}
+    for i, p in enumerate(case['pts_l']): idx.setdefault(p, i)
+    def model(scale_arg, pts):
+        o = objs[idx[int(pts)]]
+        if case['memo']: return o
+        return o.copy() if not isinstance(o, dadi.Spectrum) else dadi.Spectrum(np.ma.getdata(o).copy(), mask=np.ma.getmaskarray(o).copy(), mask_corners=False,
+                                                                               data_folded=o.folded, check_folding=False, pop_ids=o.pop_ids, extrap_x=o.extrap_x)
+    small_ = dict(case)
+    orders = {'given': list(range(k))}
+    if k >= 2:
+        rest = [i for i in case['perm'] if i != ibest]
+        icoarse = int(np.argmax(case['xs']))
+        orders = {'finest_first': [ibest] + rest, 'coarsest_first': [icoarse] + [i for i in case['perm'] if i != icoarse], 'random': list(case['perm'])}
+    fmkw = {} if case['fail_mag'] is None else {'fail_mag': case['fail_mag']}
+    for oname, o in orders.items():
+        pts = [case['pts_l'][i] for i in o]
+        xl = [case['xs'][i] for i in o] if case['xsrc'] == 'explicit' else None
+        if case['mode'] == 'log' and not fmkw: f = N.make_extrap_log_func(model, extrap_x_l=xl)
+        else: f = N.make_extrap_func(model, extrap_x_l=xl, extrap_log=(case['mode'] == 'log'), **fmkw)
+        prev = None
+        for callno in (1, 2):
+            chk.l3(None); chk.stat('labels:calls')
+            tag = '%s, %d grids %r (%s), %s model, call #%d' % (name, k, pts, oname, 'memoising' if case['memo'] else 'non-caching', callno)
+            try:
+                with np.errstate(all='ignore'):
+                    r = f(1.0, pts=pts) if case['pts_kw'] else f(1.0, pts)
+            except Exception as e:
+                chk.fail('%s:labels:%s' % (key0, type(e).__name__), '%s raises %r' % (tag, e), small_); return
+            # -- the model's own objects
+            if case['memo']:
+                for i, (o_, s_) in enumerate(zip(objs, snaps)):
+                    if not _same_snapshot(_snapshot(o_), s_):
+                        now = _snapshot(o_)
+                        what = ('data' if not np.array_equal(now[0], s_[0], equal_nan=True) else 'mask' if (s_[1] is not None and not np.array_equal(now[1], s_[1]))
+                                else 'extrap_x %r -> %r' % (s_[4], now[4]) if now[4] != s_[4] else 'folded/pop_ids')
+                        chk.fail('%s:labels:model_modified' % key0, '%s: the result object the model returned for pts=%d was modified by the extrapolation (%s)'
+                                 % (tag, case['pts_l'][i], what), small_); return
+            # -- type and labels
+            if case['valued'] == 'spectrum':
+                if not isinstance(r, dadi.Spectrum):
+                    chk.fail('%s:labels:type' % key0, '%s: result is %s, not a Spectrum' % (tag, type(r).__name__), small_); return
+                if list(r.pop_ids or []) != list(case['pop_ids'] or []):
+                    chk.fail('%s:labels:pop_ids' % key0, '%s: pop_ids %r, the model gives %r' % (tag, r.pop_ids, case['pop_ids']), small_); return
+                if bool(r.folded) != case['folded']:
+                    chk.fail('%s:labels:folded' % key0, '%s: folded flag %r, the model gives %r' % (tag, r.folded, case['folded']), small_); return
+                got_mask = np.ma.getmaskarray(r).ravel()
+                if r.shape != shape or not np.array_equal(got_mask, exp_mask):
+                    extra = np.nonzero(got_mask & ~exp_mask)[0].tolist() if r.shape == shape else None
+                    lost = np.nonzero(~got_mask & exp_mask)[0].tolist() if r.shape == shape else None
+                    chk.fail('%s:labels:mask' % key0, '%s: the result is not masked exactly where one of the model results is: newly masked flat entries %r '
+                             '(of which corners %r), entries that lost their mask %r; masks of the model results per grid %r'
+                             % (tag, extra, [e for e in (extra or []) if e in (0, n - 1)], lost, [np.nonzero(m)[0].tolist() for m in masks]), small_); return
+                data = np.asarray(np.ma.getdata(r), dtype=float).ravel()
+                if callno == 1: k_mask(chk, ctx, case, masks, got_mask)
+            else:
+                if isinstance(r, np.ma.MaskedArray) or np.asarray(r).shape != shape:
+                    chk.fail('%s:labels:type' % key0, '%s: result is %s of shape %r' % (tag, type(r).__name__, np.asarray(r).shape), small_); return
+                data = np.asarray(r, dtype=float).ravel()
+            # -- values of the unmasked entries
+            for e in np.nonzero(~exp_mask)[0]:
+                got = float(data[e]); want = float(expect[e])
+                if case['mode'] == 'linear': okv = abs(got - want) <= 1e-9 * max(ymax, abs(want)) + 200 * EPS * amp * ymax
+                else: okv = math.isfinite(got) and abs(got - want) <= (1e-9 + 200 * EPS * amp * max(ymax, 1.0)) * abs(want)
+                if not okv:
+                    what = 'fallback' if e == planted else 'inexact'
+                    chk.fail('%s:labels:%s' % (key0, what), '%s: unmasked entry %d%s is %r, expected %r (%s)'
+                             % (tag, e, ' (a corner)' if e in (0, n - 1) else '', got, want,
+                                'its exact extrapolation lies %g decades from the finest-grid value %r, fail_mag %r: falls back to the finest-grid value'
+                                % ((10 if case['fail_mag'] is None else case['fail_mag']) + case['plant'][1], float(Y[ibest, e]), case['fail_mag'])
+                                if e == planted else 'the value at infinitely fine grid of the degree-%d dependence' % case['deg']), small_); return
+            # -- the same call again gives the same answer
+            if prev is not None and not (np.array_equal(prev[~exp_mask], data[~exp_mask], equal_nan=True)):
+                chk.fail('%s:labels:repeat' % key0, '%s: a repeated call returns other values than the first one' % tag, small_); return
+            prev = data
+
+def k_mask(chk, ctx, case, masks, got_mask):
+    """K: mask bit of every entry class (corner or not x the mask bits of that entry in the k results) -- the real result vs the
+    generated dispatch/formulas run on mask bits with the generated Spectrum arithmetic (op c07.mask)"""
+    driver = ctx['driver']
+    if driver is None or not driver.ok(): return
+    n = len(got_mask); memo = ctx.setdefault('_mask_memo', {})
+    for e in range(n):
+        corner = e in (0, n - 1)
+        bits = tuple(int(m[e]) for m in masks)
+        if (corner, bits) not in memo:
+            memo[(corner, bits)] = driver.ask('c07.mask %d %s' % (int(corner), ','.join(str(b) for b in bits)))
+        out = memo[(corner, bits)]
+        if out != 'ok %d' % int(got_mask[e]):
+            chk.k_bad('mask:k=%d' % case['k'], dict(case), 'entry %d (corner=%s) masks per grid %r -> result mask %d' % (e, corner, list(bits), int(got_mask[e])), out, None); return
+    chk.k_ok('mask:k=%d' % case['k']); chk.stat('k_mask_entry_classes', len(set((e in (0, n - 1), tuple(int(m[e]) for m in masks)) for e in range(n))))
+
+def l3_labels(chk, ctx, rng, reps):
+    dadi = ctx['dadi']
+    for rep in range(reps):
+        for k in range(1, 7):
+            for mode in ('linear', 'log'):
+                for mk in MASK_KINDS:
+                    check_label_case(chk, ctx, gen_label_case(rng, dadi, k, mode, 'spectrum', mk))
+                check_label_case(chk, ctx, gen_label_case(rng, dadi, k, mode, 'array', 'none'))
+            if k >= 2:
+                # the two ways an extrapolation that writes into its inputs shows: a memoising model, and the finest grid listed first
+                # with an entry that must fall back -- both kinds of model, unmasked corners
+                for memo in (True, False):
+                    for valued in ('spectrum', 'array'):
+                        check_label_case(chk, ctx, gen_label_case(rng, dadi, k, 'linear', valued, 'none', memo=memo, plant=True, folded=False))
+
 # ----------------------------------------------------------------------------------------------- entry points
 def run(chk, ctx):
     tier = ctx['tier']; dadi = ctx['dadi']
@@ -833,12 +1076,17 @@ def run(chk, ctx):
                 'positional/keyword/scalar x source of the x values (explicit extrap_x_l with array results / with Spectrum results carrying the same, other or no (None) '
                 'extrap_x; extrap_x of the results; none at all = must be refused) x planted entries whose exact extrapolation lies a chosen '
                 'number of decades above/below the finest-grid value; every ordering of the grid list for k<=4, random orderings + reversal for k=5,6; '
+                'labels sweep: k=1..6 x linear/log x Spectrum-valued models masked nowhere / at both corners / at one corner / at arbitrary entries / differently on every grid '
+                '(folded or not, pop_ids, numbers incl. 0 and negatives under the mask, extrap_x float or numpy scalar) and array-valued models, memoising (same object handed out on every '
+                'call) or not, an unmasked (corner) entry planted beyond fail_mag, finest grid first / coarsest first / random order, every call made twice; '
                 'real models snm/two_epoch/split_mig with k=1..6. non-trivial/distinct = distinct (k, x kind, valued, mode, pts style, x source, rank, '
                 'degree<k, planted, fail_mag); re-orderings of one case are counted as evaluations only')
     chk.unproved = ['round-off: theorems are about exact field arithmetic; agreement of the float formulas with them is numerical (K, 1e-9 of the input scale, ill-conditioned x sets skipped)',
                     'log variant: exp/log are real functions in C07_log_k; the float exp/log round trip and the fallback decision in log mode are only searched (L3)',
                     'fallback test for a fractional fail_mag and the IEEE corner cases (ratio <= 0, best = 0) are modelled (K) / searched (L3), the theorem covers positive ratios and whole decades',
-                    'labels (pop_ids, mask, Spectrum type), pts positional/keyword/scalar, no_extrap: glue, searched by L3 only',
+                    'labels: the mask of a Spectrum-valued result is proved for the generated formulas run on mask bits with the translated Spectrum arithmetic (C07_mask_union) '
+                    'and compared (K, c07.mask); pop_ids, folded flag, Spectrum type, that the fallback step and numpy.ma leave the mask alone, that the model\'s own result objects are '
+                    'not modified, pts positional/keyword/scalar, no_extrap: glue, searched by L3 only',
                     'which x values are used: the statements assigning x_l are translated (xSelect, C07_xsource_*/C07_xs_*) and the x list the real formulas receive is compared (K); '
                     'that a TypeError is what arithmetic with None raises is modelled by hand (xValues) and compared in K',
                     'extrap_x recorded by Spectrum.from_phi: checked on real models (L3), not modelled']
@@ -871,12 +1119,15 @@ def run(chk, ctx):
     for c in cases:
         check_case(chk, ctx, c, perms=4 if tier == 'quick' else 12)
     l3_glue(chk, ctx, rng)
+    l3_labels(chk, ctx, rng, 1 if tier == 'quick' else 25)
     l3_real_models(chk, ctx, rng, 1 if tier == 'quick' else 6)
 
 def replay(chk, ctx, data):
     rng = common.Rng(ctx['seed'], 'C07'); ctx['_rng'] = rng
     inp = data.get('input', {})
-    if 'pts_l' in inp and 'C' in inp:
+    if inp.get('labels_case'):
+        check_label_case(chk, ctx, inp)
+    elif 'pts_l' in inp and 'C' in inp:
         c = dict(inp)
         Cd = inp['C']
         c['C'] = np.array(Cd['data'], dtype=float).reshape(Cd['shape']) if isinstance(Cd, dict) else np.array(Cd, dtype=float)
